@@ -387,6 +387,28 @@ RECURSION_OK = {
 }
 
 
+def _trail_guarded(fn, calls):
+    """depth-first search that carries its own trail, whatever the names: some parameters X, T with `if X in T: raise ...` before the first
+    recursive call, and every recursive call hands down `T + (X,)` in T's place -> the trail grows by a new element per level"""
+    params = [a.arg for a in fn.args.args]
+    first_call = min(c.lineno for c in calls)
+    for st in ast.walk(fn):
+        if isinstance(st, ast.If) and st.lineno < first_call and isinstance(st.test, ast.Compare) and len(st.test.ops) == 1 and isinstance(st.test.ops[0], ast.In) \
+                and isinstance(st.test.left, ast.Name) and isinstance(st.test.comparators[0], ast.Name) and any(isinstance(b, ast.Raise) for b in st.body):
+            x, t = st.test.left.id, st.test.comparators[0].id
+            if x not in params or t not in params:
+                continue
+            pos = params.index(t) - (1 if params and params[0] == "self" else 0)
+            ok = True
+            for c in calls:
+                arg = c.args[pos] if pos < len(c.args) else next((k.value for k in c.keywords if k.arg == t), None)
+                ok = ok and isinstance(arg, ast.BinOp) and isinstance(arg.op, ast.Add) and isinstance(arg.left, ast.Name) and arg.left.id == t \
+                    and isinstance(arg.right, ast.Tuple) and any(isinstance(e, ast.Name) and e.id == x for e in arg.right.elts)
+            if ok:
+                return f"depth-first search carrying its trail ({t}): a repeated {x} raises before recursing, so the depth is bounded by the number of distinct values"
+    return None
+
+
 def loop_obligations():
     out = []
     mods = modules()
@@ -410,8 +432,9 @@ def loop_obligations():
             rec = [n for n in rec if _owner(fn, n)]
             if rec and not q.startswith("SVG.") or (rec and not _is_inplace_delegation(fn, rec)):
                 if rec:
-                    why = RECURSION_OK.get((mname, q))
-                    out.append(Obl("recursion-has-variant", f"{mname}.{q}", rec[0].lineno, why is not None, f"recursive call: " + (why or "no termination argument on record")))
+                    why = RECURSION_OK.get((mname, q)) or _trail_guarded(fn, rec)
+                    # a recursion the records do not know and whose shape is not recognised is undecided (the adversarial runs decide), not a verdict
+                    out.append(Obl("recursion-has-variant", f"{mname}.{q}", rec[0].lineno, why is not None, f"recursive call: " + (why or "no termination argument on record for this function"), recognised=why is not None))
     # the termination argument of every recursion on record is "... or the interpreter's recursion limit ends it" (reference cycles
     # among clipPaths / gradient templates are cut by RecursionError): the package must not move that limit or the thread stack size
     for mname, tree in mods.items():
